@@ -110,6 +110,31 @@ func (w *FaultyWriter) Write(p []byte) (int, error) {
 	return w.Sink.Write(p)
 }
 
+// RichFaultyWriter is a FaultyWriter that also offers the optional interfaces a library may probe a
+// destination for (io.ByteWriter, io.StringWriter, Flush() error - as *bufio.Writer does). Every byte still
+// goes through the same faulting Write; Flush never fails (so a failure can only come from a write).
+type RichFaultyWriter struct {
+	*FaultyWriter
+	Flushes int
+}
+
+func (w *RichFaultyWriter) WriteByte(c byte) error {
+	n, err := w.FaultyWriter.Write([]byte{c})
+	if err == nil && n < 1 {
+		return io.ErrShortWrite
+	}
+	return err
+}
+
+func (w *RichFaultyWriter) WriteString(s string) (int, error) {
+	return w.FaultyWriter.Write([]byte(s))
+}
+
+func (w *RichFaultyWriter) Flush() error {
+	w.Flushes++
+	return nil
+}
+
 // ---- faulty transport ------------------------------------------------------------------------
 
 type TFaultKind int
@@ -124,11 +149,12 @@ const (
 	TSwap                     // swap two adjacent ranges of Len bytes at Off
 	TInsert                   // insert Bytes at Off
 	TNoise                    // replace everything by Bytes
+	TStall                    // after Off bytes every read fails with a temporary error, forever (a peer that went silent past the read deadline)
 	nTFault
 )
 
 func (k TFaultKind) String() string {
-	return [...]string{"cut", "reset", "flip", "set", "drop", "dup", "swap", "insert", "noise"}[k]
+	return [...]string{"cut", "reset", "flip", "set", "drop", "dup", "swap", "insert", "noise", "stall"}[k]
 }
 
 type TFault struct {
@@ -141,7 +167,7 @@ type TFault struct {
 
 func (f TFault) String() string {
 	switch f.Kind {
-	case TCut, TReset:
+	case TCut, TReset, TStall:
 		return fmt.Sprintf("%s@%d", f.Kind, f.Off)
 	case TFlip, TSet:
 		return fmt.Sprintf("%s@%d:%02x", f.Kind, f.Off, f.Mask)
@@ -224,6 +250,12 @@ func ApplyPlan(data []byte, plan []TFault) (out []byte, tail error, fired []bool
 			if f.Off <= len(out) {
 				out = out[:f.Off]
 				tail = errReset
+				fired[i] = true
+			}
+		case TStall:
+			if f.Off <= len(out) {
+				out = out[:f.Off]
+				tail = tempErr{}
 				fired[i] = true
 			}
 		}
